@@ -211,6 +211,7 @@ def _wingbox_props(n_cp, **kw):
         "Wf_reserve": 15000.0,
     }
     d.update(kw)
+    d.update({k: v for k, v in _SURF_OPTS.items() if k in d})  # option swarm may override structural properties too
     return d
 
 
@@ -705,7 +706,8 @@ def z7(spec):
     ivc.add_output("load_factor", val=1.0)
     ivc.add_output("point_masses", val=np.array([[8000.0]]), units="kg")
     ivc.add_output("engine_thrusts", val=np.array([[80.0e3]]), units="N")
-    ivc.add_output("point_mass_locations", val=np.array([[25.0, -10.0, -1.0]]), units="m")
+    pm_loc7 = np.array([[25.0, float(mesh[0, nyh // 2, 1]), -1.0]])  # on a node's spanwise station
+    ivc.add_output("point_mass_locations", val=pm_loc7, units="m")
     prob.model.add_subsystem("prob_vars", ivc, promotes=["*"])
     prob.model.add_subsystem("wing", SpatialBeamAlone(surface=s))
     for v in ("loads", "load_factor", "point_masses", "engine_thrusts", "point_mass_locations"):
@@ -716,7 +718,7 @@ def z7(spec):
         Inp("load_factor", 1.0, "uni", 0.5, 2.5, special=[1.0, 0.0]),
         Inp("point_masses", np.array([[8000.0]]), "rel", -0.5, 0.5, special=[0.0]),
         Inp("engine_thrusts", np.array([[80.0e3]]), "rel", -0.5, 0.5, special=[0.0]),
-        Inp("point_mass_locations", np.array([[25.0, -10.0, -1.0]]), "abs", -1.0, 1.0),
+        Inp("point_mass_locations", pm_loc7, "abs", -1.0, 1.0),
         Inp("wing.spar_thickness_cp", np.linspace(0.004, 0.01, 3), "rel", -0.2, 0.5),
         Inp("wing.skin_thickness_cp", np.linspace(0.005, 0.026, 3), "rel", -0.2, 0.5),
         Inp("wing.geometry.t_over_c_cp", np.array([0.08, 0.10, 0.08]), "rel", -0.1, 0.3),
@@ -905,8 +907,12 @@ def z8(spec):
     if spec.get("pm"):
         # engine as a point mass with thrust, as in the documented engine-thrust example
         s["n_point_masses"] = 1
+        # nominal position exactly on the spanwise station of a structural node (the usual way to place an engine),
+        # other points move it off the node
+        y_node = float(mesh[0, mesh.shape[1] // 2, 1])
+        pm_loc = np.array([[25.0, y_node, -1.0]])
         pm_vals = {"point_masses": (np.array([[8000.0]]), "kg"), "engine_thrusts": (np.array([[80.0e3]]), "N"),
-                   "point_mass_locations": (np.array([[25.0, -10.0, -1.0]]), "m")}
+                   "point_mass_locations": (pm_loc, "m")}
     flight = _as_flight()
     pn = "AS_point_0"
     driver = dict(
@@ -919,7 +925,7 @@ def z8(spec):
     inputs = _as_inputs(flight, mach=(0.7, 0.86), wind_off=bool(spec.get("relief"))) + ([
         Inp("point_masses", np.array([[8000.0]]), "rel", -0.5, 0.5, special=[0.0]),
         Inp("engine_thrusts", np.array([[80.0e3]]), "rel", -0.5, 0.5, special=[0.0]),
-        Inp("point_mass_locations", np.array([[25.0, -10.0, -1.0]]), "abs", -1.0, 1.0),
+        Inp("point_mass_locations", pm_loc, "abs", -1.0, 1.0),
     ] if spec.get("pm") else []) + [
         Inp("load_factor", 1.0, "uni", 0.8, 2.5, special=[1.0]),  # lf = 0 is inadmissible here: L_equals_W divides by W*lf
         Inp("wing.twist_cp", twist_cp, "abs", -2.0, 2.0),
@@ -1009,7 +1015,7 @@ def z10(spec):
     prob, coupled = _as_problem(spec, [s], flight, fuel_vol=True)
     inputs = _as_inputs(flight, alpha=(0.0, 4.0), mach=(0.7, 0.87), wind_off=True) + [
         Inp("load_factor", 1.0, "uni", 0.8, 2.5, special=[1.0]),  # lf = 0 is inadmissible here: L_equals_W divides by W*lf
-        Inp("fuel_mass", 10000.0, "rel", -0.5, 1.0),
+        Inp("fuel_mass", 10000.0, "rel", -0.5, 1.0, special=[0.0]),
         Inp("wing.twist_cp", np.linspace(4.0, 9.0, 3), "abs", -1.5, 1.5),
         Inp("wing.spar_thickness_cp", np.linspace(0.004, 0.01, 3), "rel", -0.2, 0.5),
         Inp("wing.skin_thickness_cp", np.linspace(0.005, 0.026, 3), "rel", -0.2, 0.5),
@@ -1094,7 +1100,7 @@ def z12(spec):
     ]
     if wingbox:
         inputs += [
-            Inp("fuel_mass", 10000.0, "rel", -0.5, 1.0),
+            Inp("fuel_mass", 10000.0, "rel", -0.5, 1.0, special=[0.0]),
             Inp("wing.twist_cp", np.linspace(4.0, 9.0, 3), "abs", -1.5, 1.5),
             Inp("wing.spar_thickness_cp", np.linspace(0.004, 0.01, 3), "rel", -0.2, 0.5),
             Inp("wing.skin_thickness_cp", np.linspace(0.005, 0.026, 3), "rel", -0.2, 0.5),
@@ -1448,6 +1454,7 @@ SURF_OPT_CHOICES = [
     {"CL0": 0.1, "CD0": 0.02},
     {"S_ref_type": "projected", "k_lam": 0.15},
     {"ref_axis_pos": 0.4},
+    {"Wf_reserve": 0.0},  # no reserve fuel: with fuel_mass = 0 the tanks are exactly empty
     {"fem_origin": 0.35},  # a no-op for tube spars; on a wingbox surface it is a left-over key (accepted, documented as tube-only)
     {"k_lam": 0.0},  # fully turbulent: admissible, and the laminar/transition terms must drop out cleanly
 ]
